@@ -488,7 +488,7 @@ fn rule_of(property: &str) -> String {
         "C11" => "1-2 canaries and an admin canary next to 1-5 attackers sharing a pool of 1-2 connections (both modes, statement cache on/off, query parser on/off); hostile bytes before the startup packet (15 classes), in place of the password, after authentication idle / inside a transaction / inside COPY IN / after a Parse / on the admin console (42 payload classes: inconsistent, negative and huge declared lengths, unknown and backend-only types, malformed Parse/Bind/Describe/Close/Execute/Query bodies, valid messages in invalid order, half frames, PRNG bytes); every other run includes lengths that ask for 2 GiB under a simulated 1 GiB memory limit; final probes after the attackers are gone",
         "C13" => "1-3 clients idle in a transaction-mode pool over 1-4 shards, each sending 4-30 simple queries: the seven commands in every documented spelling (letter case, optional quotes, spaces around, optional semicolon), numeric arguments up to 60 digits, near misses (comments before/after, multi-statement forms, the command inside a string literal, wrong operators and values), undocumented spellings (counted, not judged) and ordinary statements in between; both sharding functions, all default roles; every third run loses all servers after start-up",
         "C06" => "1-3 clients over 1-6 shards (0-1 replicas each), both sharding functions, default_shard fixed or random; per client 4-24 autocommit steps drawn from: SET SHARDING KEY, SET SHARD in and out of range, statements without a key (stickiness), the sharding_key and shard_id comment regexes, a literal equated with the automatic sharding key in SELECT/INSERT/UPDATE/DELETE/JOIN with qualified and quoted names, anonymous Parse/Bind/Execute with the key as text or binary int2/int4/int8 parameter, alone or next to another parameter; keys biased to 0, +-1, 32/64-bit extremes and negative values; every fourth run one whole shard is unreachable",
-        "C05" => "1-3 clients over one shard with a primary and 1-2 replicas, read/write splitting on, parser on in most runs, all default_role and primary_reads_enabled values; per client 5-26 steps: statements of 10 classes known by construction (plain reads incl. CTE/UNION/VALUES/subqueries, INSERT/UPDATE/DELETE/MERGE/TRUNCATE, DDL, utility statements, data-modifying CTEs, SELECT FOR UPDATE/SHARE also nested, SELECT INTO, multi-statement mixes) in simple and anonymous extended protocol, explicit transactions with 1-3 statements, SET SERVER ROLE and SET PRIMARY READS in between; acceptance by the pooler's parser decided with the same sqlparser version; every fourth run all replicas or the primary are unreachable",
+        "C05" => "1-3 clients over one shard with a primary and 1-2 replicas, read/write splitting on, parser on in most runs, all default_role and primary_reads_enabled values; per client 5-26 steps: statements of 10 classes known by construction (plain reads incl. CTE/UNION/VALUES/subqueries, INSERT/UPDATE/DELETE/MERGE/TRUNCATE, DDL, utility statements, data-modifying CTEs, SELECT FOR UPDATE/SHARE also nested, SELECT INTO, multi-statement mixes) in simple and anonymous extended protocol, explicit transactions with 1-3 statements, SET SERVER ROLE and SET PRIMARY READS in between; acceptance by the pooler's parser decided with the same sqlparser version; every fourth run all replicas or the primary are unreachable; a third of the runs have two shards with nobody selecting one; every seventh run the pool is rebuilt by RELOAD while the clients are connected; with and without an automatic sharding key",
         "C19" => "1-2 clients, table_access with two listed tables, one intercept rule, query logger on/off, configured globally or per pool, statement cache on/off; statements mentioning a listed or unlisted relation in 12 positions (FROM, JOIN, subqueries, CTE, INSERT/UPDATE/DELETE target, USING, INSERT..SELECT, EXISTS, UPDATE..FROM) and 7 spellings (case, quotes, schema), sent alone, in multi-statement messages, in Parse..Sync batches with several Parses, inside transactions (simple and extended), and as a named Parse executed by a later Bind; the intercepted query in four spellings; every fourth run with plugins disabled; every sixth run the plugins are switched on by RELOAD while the clients are connected and idle",
         "C20" => "1-3 clients without pool contention over a primary (and optional replica) with 0-3 mirrors attached to either; simple, extended and transactional requests with known server-side durations; per-mirror fault scripts: down from the start, refuse + connection kills (fin/rst) with or without recovery, connect hang, black hole after accept, slow replies (50-2000 ms), startup rejected, every statement answered with an error, connection kills at PRNG times; a quarter of the runs without mirrors (control), a quarter with healthy mirrors; calm network in 70% of the runs (latency oracle), swarm otherwise",
         "C15" => "a base configuration (1-3 shards, primary and optional replica, 1-2 users) with at most one of 34 deviations: shard ids starting at 1, with a gap, non-numeric, huge, negative, with leading zero; two primaries, no primary, duplicate server, the same server in two shards, no servers; default_shard beyond range / last / random / random_healthy / bogus; default_role bogus or replica without replicas; user without password, incomplete auth_query, duplicate user names; min_pool_size above pool_size, pool_size 0; invalid regexes; plugins or read/write splitting without parser; mirror of an absent server; bogus sharding function and pool mode; unqualified automatic sharding key. Booted through the real main; when accepted, one probe client per (user, shard id written in the file, role), one for the default shard, and an admin client reading six SHOW commands",
